@@ -54,6 +54,8 @@ type batchReport struct {
 	N        int     `json:"n"`
 	Checks   int     `json:"checks"`
 	MaxRel   float64 `json:"max_rel_diff"`
+	MaxRelFinite float64 `json:"max_rel_diff_finite"` // over the pairs in which both values are finite
+	NonFinite    int     `json:"nonfinite_mismatches"` // pairs that differ and in which a value is NaN / Inf
 	Exact    bool    `json:"all_bit_equal"`
 	Problem  string  `json:"problem,omitempty"`
 	OutAxes  map[string]int `json:"out_axes,omitempty"`
@@ -150,6 +152,9 @@ func batchCase(stream string, load func() (*gonnx.Model, error), desc any, ins [
 						d := math.Abs(want[i]-got[i]) / math.Max(1e-6, math.Max(math.Abs(want[i]), math.Abs(got[i])))
 						if math.IsNaN(d) || math.IsInf(d, 0) {
 							d = 1e300
+							rep.NonFinite++
+						} else if d > rep.MaxRelFinite {
+							rep.MaxRelFinite = d
 						}
 						if d > rep.MaxRel {
 							rep.MaxRel = d
@@ -157,6 +162,15 @@ func batchCase(stream string, load func() (*gonnx.Model, error), desc any, ins [
 					}
 				}
 			}
+		}
+		// straight after the Run on the whole batch, a batch of the same size that differs from it only in the
+		// MIDDLE (two neighbouring samples swapped): whatever a Model remembers about its last call, it must not
+		// mistake this one for it
+		if N >= 4 {
+			mid := append([]int{}, all...)
+			mid[N/2], mid[N/2-1] = mid[N/2-1], mid[N/2]
+			check(all, "whole batch again") // (the last call before the swapped batch is the whole batch)
+			check(mid, "two middle samples swapped")
 		}
 		for i := 0; i < N; i++ {
 			check([]int{i}, "sample alone")
@@ -220,6 +234,31 @@ func genC16(e *emitter, tier string) {
 				Outputs: []string{"sm", "ls", "sg"}}
 			e.emit(batchCase("float:softmax-moderate", func() (*gonnx.Model, error) { return loadModel(gsm) }, gsm, []BatchIn{{"x", []int{N, 4}, 0}}, map[string][]float64{"x": rnd(N*4, 3)}, false))
 			if r == 0 && N >= 2 {
+				// samples of very different magnitude with FRACTIONAL logits, the small one first: a shift by anything
+				// computed over the whole batch rounds the small sample's logits away
+				for _, gap := range []float64{1e3, 3e6, 1e8} {
+					d := make([]float64, N*4)
+					for i := range d {
+						row := i / 4
+						d[i] = 0.1 * float64(i%4+1)
+						if row%2 == 1 {
+							d[i] = gap*float64(row) + float64(i%4)*0.75
+						}
+					}
+					e.emit(batchCase("float:softmax-mixed-magnitudes", func() (*gonnx.Model, error) { return loadModel(gsm) }, gsm, []BatchIn{{"x", []int{N, 4}, 0}}, map[string][]float64{"x": d}, false))
+					g3 := &GraphJ{Inputs: []VInfoJ{{Name: "x", Dt: "f32", Dims: []any{"N", 4, 2}}},
+						Nodes:   []NodeJ{{Op: "Softmax", Attrs: []Attr{{Name: "axis", Type: "i", I: 1}}, Ins: []string{"x"}, Outs: []string{"sm"}}, {Op: "LogSoftmax", Attrs: []Attr{{Name: "axis", Type: "i", I: 1}}, Ins: []string{"x"}, Outs: []string{"ls"}}},
+						Outputs: []string{"sm", "ls"}}
+					d3 := make([]float64, N*8)
+					for i := range d3 {
+						row := i / 8
+						d3[i] = 0.1 * float64(i%8+1)
+						if row%2 == 1 {
+							d3[i] = gap*float64(row) + float64(i%8)*0.75
+						}
+					}
+					e.emit(batchCase("float:softmax-mixed-magnitudes", func() (*gonnx.Model, error) { return loadModel(g3) }, g3, []BatchIn{{"x", []int{N, 4, 2}, 0}}, map[string][]float64{"x": d3}, false))
+				}
 				// the first element of the whole tensor is far above the other rows' values
 				d := make([]float64, N*4)
 				d[0] = 1000
